@@ -70,7 +70,7 @@ func (c *c40Run) settle() {
 		select {
 		case n := <-c.notif:
 			c.started(n)
-		case <-time.After(3 * time.Second):
+		case <-time.After(2 * time.Second):
 			c.timeout = true
 		}
 	}
@@ -87,7 +87,21 @@ func (c *c40Run) started(n c40Notif) {
 
 func (c *c40Run) submit(id uint64, nfail int) {
 	c.fails[id] = nfail
-	err := c.d.Submit(c.job(id))
+	var err error
+	panicked := false
+	func() {
+		defer func() {
+			if e := recover(); e != nil {
+				panicked = true
+			}
+		}()
+		err = c.d.Submit(c.job(id))
+	}()
+	if panicked {
+		c.log(c40Ev{K: "panic", ID: id}, "DvPanic")
+		c.timeout = true // stop this case
+		return
+	}
 	ok := err == nil
 	c.log(c40Ev{K: "submit", ID: id, OK: ok}, vApp("DvSubmit", vN(id), vBool(ok)))
 	if ok {
@@ -183,7 +197,9 @@ func c40Case(r *rand.Rand) (*c40Run, bool) {
 		}
 		c.finish(id)
 	}
-	drained := !c.timeout && len(c.running) == 0 && (c.closed || c.queued == 0)
+	// at rest: nothing runs and nothing is expected to start -- or the driver waited 2 s (workers need
+	// microseconds) for a start that never came
+	drained := c.timeout || (len(c.running) == 0 && (c.closed || c.queued == 0))
 	if !c.closed {
 		_ = c.d.Close() // stop the workers of this case (not part of the log)
 	}
@@ -208,7 +224,8 @@ func c40Race(trials int) (late int64, runs int64) {
 				return nil
 			})
 		}
-		for spin := 0; spin < (t%40)*25; spin++ { // vary the distance between Submit and Close
+		start := time.Now() // vary the distance between Submit and Close: 0 .. 25 microseconds
+		for time.Since(start) < time.Duration(t%50)*500*time.Nanosecond {
 			atomic.AddInt64(&sink, 1)
 		}
 		_ = d.Close()
@@ -225,6 +242,10 @@ func TestVerifC40(t *testing.T) {
 	for i := 0; i < w.N; i++ {
 		if !w.Want(i) {
 			continue
+		}
+		if timeouts > 5 { // something is badly wrong (jobs never start): do not spend hours waiting
+			w.Extra["aborted_after_timeouts"] = true
+			break
 		}
 		r := w.Rand(i)
 		c, drained := c40Case(r)
